@@ -153,6 +153,27 @@ Proof.
         left. rewrite <- Hp. apply Hself. congruence.
 Qed.
 
+(* ---------- datagrams without handshake messages (and without truncated fragments) never raise ---------- *)
+Definition frag_ok (w : wmsg) : Prop := w_type w = APP_FRAGMENT -> (6 <= length (w_payload w))%nat.
+
+Lemma recv_msgs_noraise ws : forall c now orcs c' o,
+  has_hs ws = false -> Forall frag_ok ws -> recv_msgs c now ws orcs = (c', o) -> raised o = false.
+Proof.
+  induction ws as [|w r IH]; intros c now orcs c' o Hh Hf E; cbn [recv_msgs] in E.
+  - injection E as <- <-. reflexivity.
+  - unfold has_hs in Hh. cbn [existsb] in Hh. apply orb_false_elim in Hh as [Hw Hr].
+    pose proof (Forall_inv Hf) as Fw. pose proof (Forall_inv_tail Hf) as Fr. unfold frag_ok in Fw.
+    destruct (bf_insert (c_bf_msg c) (w_seq w)) as [bf|]; [|eapply IH; eassumption].
+    match type of E with context [match ?x with (_, _) => _ end] => destruct x as [[c1 o1] orcs'] eqn:E1 end.
+    assert (H1 : o1 = []).
+    { destruct (w_type w) eqn:Et; try discriminate Hw; try (injection E1 as _ <- _; reflexivity).
+      unfold recv_fragment in E1. specialize (Fw eq_refl).
+      destruct (length (w_payload w) <? 6)%nat eqn:El; [apply Nat.ltb_lt in El; lia|].
+      injection E1 as _ <- _. reflexivity. }
+    subst o1. cbn [raised existsb] in E.
+    destruct (recv_msgs c1 now r orcs') as [c2 o2] eqn:E2. injection E as <- <-. cbn [app]. eapply IH; eassumption.
+Qed.
+
 (* ---------- one receive call ---------- *)
 Lemma open_dg_msgs key d ws : open_dgram key d = Ok ws -> dg_msgs d = ws.
 Proof.
@@ -224,13 +245,17 @@ Proof. unfold client_update. destruct (_ && (now >? _)); destruct (_ && (_ >? c_
 Definition is_recv_ev (x : ev) : Prop := match x with ERecv _ _ _ | EClientTick _ _ => True | _ => False end.
 
 Theorem step_accept_msgs e c x c' o d :
-  step e c x = (c', o) -> accepts c x = Some d -> raised o = false ->
+  step e c x = (c', o) -> accepts c x = Some d -> (has_hs (dg_msgs d) = true -> raised o = false) ->
+  Forall frag_ok (dg_msgs d) ->
   is_recv_ev x /\
   exists c1 now orcs c2 o2, c_bf_msg c1 = c_bf_msg c /\ c_incoming c1 = c_incoming c /\
     recv_msgs c1 now (dg_msgs d) orcs = (c2, o2) /\ raised o2 = false /\
     c_bf_msg c' = c_bf_msg c2 /\ c_incoming c' = c_incoming c2.
 Proof.
-  intros E Hacc Hnr. unfold accepts in Hacc. destruct x; cbn [pre_recv] in Hacc; try discriminate; cbn [step] in E.
+  intros E Hacc Hnr0 Hfr.
+  assert (Hcase : forall c1 now orcs c2 o2, recv_msgs c1 now (dg_msgs d) orcs = (c2, o2) -> (raised o = false -> raised o2 = false) -> raised o2 = false).
+  { intros c1 now orcs c2 o2 Er Hi. destruct (has_hs (dg_msgs d)) eqn:Eh; [apply Hi, Hnr0; reflexivity|].
+    eapply recv_msgs_noraise; eassumption. } unfold accepts in Hacc. destruct x; cbn [pre_recv] in Hacc; try discriminate; cbn [step] in E.
   - (* client tick *)
     destruct r as [| |d0 orcs]; try discriminate.
     split; [exact I|]. unfold client_tick in E.
@@ -248,7 +273,7 @@ Proof.
          c_bf_msg c' = c_bf_msg c2 /\ c_incoming c' = c_incoming c2).
     { intros ot cf Ho Hb Hi ->. exists cm, now, orcs, c1, o2.
       split; [congruence|]. split; [congruence|]. split; [exact Em|]. split; [|split; assumption].
-      apply Hr. rewrite Ho, !raised_app in Hnr. apply orb_false_elim in Hnr as [_ Hnr]. apply orb_false_elim in Hnr as [Hnr _].
+      apply (Hcase _ _ _ _ _ Em). intros Hnr. apply Hr. rewrite Ho, !raised_app in Hnr. apply orb_false_elim in Hnr as [_ Hnr]. apply orb_false_elim in Hnr as [Hnr _].
       subst o1f. rewrite raised_filter_ret in Hnr. exact Hnr. }
     destruct (raised o1f).
     { injection E as <- <-. apply (Hfin [] c1); auto. rewrite app_nil_r. reflexivity. }
@@ -262,7 +287,7 @@ Proof.
     destruct (opens c d0 && is_ok (bf_insert (c_bf_pkt c) (h_seq (d_hdr d0)))) eqn:Hg; [|discriminate].
     injection Hacc as <-.
     destruct (recv_accept_decomp _ _ _ _ _ _ E Hg) as (cm & o2 & Bm & Im & Em & Hr).
-    exists cm, now, orcs, c', o2. repeat split; auto.
+    exists cm, now, orcs, c', o2. repeat split; auto. exact (Hcase _ _ _ _ _ Em Hr).
 Qed.
 
 Theorem step_noaccept_bfm e c x c' o : step e c x = (c', o) -> accepts c x = None -> c_bf_msg c' = c_bf_msg c.
